@@ -1691,3 +1691,62 @@ func exactBasicComparison(v ssa.Value) bool {
 	}
 	return false
 }
+
+func init() {
+	p := Properties["C08"]
+	p.Rules = append(p.Rules, Rule{"C08/property-names-are-strings", ruleC08PropertyNames})
+}
+
+// The names handed to the propertyNames subschema are JSON strings whatever the Go type of the map's keys: the
+// instance of that evaluation is reflect.ValueOf of a Go string. A key taken from the map as it is keeps its Go
+// type - a key of type json.Number would be evaluated as a number.
+func ruleC08PropertyNames(c *Ctx) {
+	const rule = "C08/property-names-are-strings"
+	m := c.EvalModel(rule)
+	if m == nil {
+		return
+	}
+	n := 0
+	for _, s := range m.Sites {
+		isPN := false
+		for _, src := range s.SchemaSrc {
+			if src == "Schema.PropertyNames" {
+				isPN = true
+			}
+		}
+		if !isPN {
+			continue
+		}
+		n++
+		okStr, why := false, "the instance is not built by reflect.ValueOf"
+		for _, src := range append(traceSourcesDeep(s.Inst), s.Inst) {
+			call, ok := src.(*ssa.Call)
+			if !ok {
+				continue
+			}
+			switch core.CalleeKey(&call.Call) {
+			case "reflect.ValueOf":
+				t := peelIface(call.Call.Args[0]).Type()
+				if b, isBasic := t.Underlying().(*types.Basic); isBasic && b.Info()&types.IsString != 0 && !isNamed(t, "encoding/json", "Number") {
+					okStr = true
+				} else {
+					why = "reflect.ValueOf is applied to a " + t.String()
+				}
+			case "reflect.Value.Convert":
+				okStr = true // converted to a chosen type (the string type) before evaluation
+			}
+		}
+		if !okStr {
+			for _, src := range append(traceSourcesDeep(s.Inst), s.Inst) {
+				if p, ok := src.(*ssa.Parameter); ok {
+					why = "the instance is the value " + p.Name() + " handed over by an iterator (a map key with its Go type)"
+				}
+				if call, ok := src.(*ssa.Call); ok && strings.HasPrefix(core.CalleeKey(&call.Call), "reflect.MapIter.Key") {
+					why = "the instance is the map key as stored"
+				}
+			}
+		}
+		c.R.Check(okStr, rule, s.key(), c.pos(s.siteInstr()), "property names are evaluated as Go strings", "the property name evaluated against propertyNames is not a Go string built from the name ("+why+"): a map keyed by json.Number (or another string-kind type with its own meaning) has its keys judged as numbers, the same object decoded into map[string]any as strings")
+	}
+	c.R.Floor(rule, "evaluations of propertyNames", n, 1)
+}
